@@ -1145,6 +1145,34 @@ class Interp:
     def e_Starred(self, node, env):
         raise Unsupported("starred expression here")
 
+    def e_NamedExpr(self, node, env):
+        v = self.eval(node.value, env)
+        if not isinstance(node.target, ast.Name):
+            raise Unsupported("walrus target")
+        # PEP 572: binds in the enclosing function scope (comprehension scopes are skipped)
+        e = env
+        while e.parent is not None and e.func is None and e.parent.module is e.module and e.parent.parent is not None:
+            e = e.parent
+        e.vars[node.target.id] = v
+        env.vars[node.target.id] = v
+        return v
+
+    def e_YieldFrom(self, node, env):
+        e = env
+        while e is not None and "$yield" not in e.vars:
+            e = e.parent
+        if e is None:
+            raise Unsupported("yield from outside generator")
+        v = self.eval(node.value, env)
+        if isinstance(v, SSeq) and not T.is_const(v.n):
+            if e.vars["$yield"]:
+                raise Unsupported("yield from a symbolic sequence after other yields")
+            e.vars["$yield_value"] = v
+            return None
+        for item in self.iterate(v):
+            e.vars["$yield"].append(item)
+        return None
+
     def e_Yield(self, node, env):
         e = env
         while e is not None and "$yield" not in e.vars:
@@ -1762,7 +1790,17 @@ class Interp:
                 tt = it.truth_term(probe)
                 if tt is True:
                     return T.lt(0, x.n)
-                raise Unsupported("any() over a symbolic sequence of non-trivially-truthy values")
+                if tt is False:
+                    return False
+                # exists i < n. cond(i): a fresh Boolean with a skolem witness one way and the universal
+                # fact (instantiated at the generic indices) the other way
+                c = cur()
+                cond_at = lambda i: T.lift(it.truth_term(x.elem(i)))
+                some = T.fresh("any_item", T.BOOL)
+                w = T.fresh("w", T.INT)
+                c.axiom(T.implies(some, T.and_(T.le(0, w), T.lt(w, x.n), cond_at(w))))
+                c.assume_forall(x.n, lambda i: T.implies(cond_at(i), some))
+                return some
             if hasattr(x, "pyvc_any"):
                 return x.pyvc_any(it)
             r = False
@@ -1783,7 +1821,13 @@ class Interp:
                     return True
                 if probe is False:
                     return T.eq(x.n, 0)
-                raise Unsupported("all() over a symbolic sequence of symbolic conditions")
+                c = cur()
+                cond_at = lambda i: T.lift(it.truth_term(x.elem(i)))
+                every = T.fresh("all_items", T.BOOL)
+                w = T.fresh("w", T.INT)
+                c.axiom(T.or_(every, T.and_(T.le(0, w), T.lt(w, x.n), T.not_(cond_at(w)))))
+                c.assume_forall(x.n, lambda i: T.implies(every, cond_at(i)))
+                return every
             r = True
             for v in it.iterate(x):
                 t = it.truth_term(v)
